@@ -109,6 +109,11 @@ def process_chunk(cases):
                 if io.startswith('ORACLE-ERROR'):
                     oracle_errors.append((li, l, io))
                 elif not io.startswith('ok'):
+                    if l.split()[0] == '!rejected':
+                        # the request is invalid only if the model rejects it (a shrunk script may have made it valid)
+                        prev = max((k for k in per_case_model[ci] if k < li), default=None)
+                        if prev is None or per_case_model[ci][prev] != 'rej':
+                            continue
                     oracle_fails.append((li, l, io))
                 continue
             stats['ops'] += 1
